@@ -14,11 +14,11 @@ import (
 func errModels(m *interp.Machine) {
 	for _, name := range []string{"errors.New", "fmt.Errorf"} {
 		m.Ext[name] = func(m *interp.Machine, pos token.Pos, recv interp.Value, args []interp.Value) (interp.Value, error) {
-			msg := ""
-			if len(args) > 0 {
-				msg = interp.TermOf(args[0])
+			var parts []string
+			for _, a := range args {
+				parts = append(parts, interp.TermOf(a))
 			}
-			return &interp.Opaque{Kind: "error", ID: msg}, nil
+			return &interp.Opaque{Kind: "error", ID: strings.Join(parts, " ‖ ")}, nil
 		}
 	}
 }
@@ -26,7 +26,13 @@ func errModels(m *interp.Machine) {
 // lookupTable: decision table of Registry.LookupInterface over the kinds of
 // declaration a requested name can denote (abstract go/types objects), by
 // abstract interpretation of its current source.
-func lookupTable(c *Ctx) {
+func lookupTable(c *Ctx) { lookupTableMode(c, false) }
+
+// lookupErrors: the failing rows of that table, for C19: a name that denotes nothing and a name that
+// denotes something other than an interface both end in an error, and the error carries the name.
+func lookupErrors(c *Ctx) { lookupTableMode(c, true) }
+
+func lookupTableMode(c *Ctx, errorsOnly bool) {
 	run, prog := c.Run, c.Prog
 	fn := prog.LookupFunc(load.PkgRegistry, "Registry.LookupInterface")
 	if fn == nil {
@@ -75,6 +81,9 @@ func lookupTable(c *Ctx) {
 		{"an unknown name", nil, true, nil},
 	}
 	for _, tc := range cases {
+		if errorsOnly && !tc.wantErr {
+			continue
+		}
 		vals, errs := allPaths(prog, func(m *interp.Machine) (interp.Value, error) {
 			tmpl.InstallTypesModels(m, prog)
 			errModels(m)
@@ -157,11 +166,37 @@ func lookupTable(c *Ctx) {
 		if undecided {
 			continue
 		}
+		if errorsOnly {
+			named := len(vals) > 0
+			shown := ""
+			for _, got := range vals {
+				tup, _ := got.(interp.Tuple)
+				if len(tup) != 3 {
+					named = false
+					continue
+				}
+				e, isErr := tup[2].(*interp.Opaque)
+				if !isErr || !strings.Contains(e.ID, "ƗX") {
+					named = false
+				}
+				shown = interp.Show(tup[2])
+			}
+			run.Check("G-ERR/guards", tc.desc, pos, ok, fmt.Sprintf("for a name denoting %s LookupInterface yields %s, want an error: the generator would go on with a nil or wrong type", tc.desc, detail))
+			if ok {
+				run.Check("G-ERR/names-the-type", tc.desc, pos, named, fmt.Sprintf("for a name denoting %s the lookup failure is reported as %s, which does not carry the requested name", tc.desc, shown))
+			}
+			continue
+		}
 		want := "an error naming the type"
 		if !tc.wantErr {
 			want = "(the interface, " + interp.Show(tc.wantParam) + ", nil)"
 		}
 		run.Check("G-LOOKUP/table", tc.desc, pos, ok, fmt.Sprintf("for a name denoting %s LookupInterface yields %s, want %s — the mock must carry exactly the type parameters of the requested name itself", tc.desc, detail, want))
+	}
+	if errorsOnly {
+		run.Floor("G-ERR/guards", 2)
+		run.Floor("G-ERR/names-the-type", 2)
+		return
 	}
 	run.Floor("G-LOOKUP/table", 6)
 }
